@@ -60,6 +60,10 @@ func (sp *tableParser) Parse(protomsg proto.Message, sheet *book.Sheet) error {
 				}
 				curr.NewCell(row, &sp.names[row], &sp.types[row], data, sp.sheetOpts.AdjacentKey)
 				name := sp.names[row]
+				if name == "" {
+					// a blank name cell names no column
+					continue
+				}
 				if foundRow, ok := sp.lookupTable[name]; ok && foundRow != row {
 					return xerrors.E0003(name, excel.Postion(foundRow, nameCol), excel.Postion(row, nameCol))
 				}
@@ -111,6 +115,10 @@ func (sp *tableParser) Parse(protomsg proto.Message, sheet *book.Sheet) error {
 				}
 				curr.NewCell(col, &sp.names[col], &sp.types[col], data, sp.sheetOpts.AdjacentKey)
 				name := sp.names[col]
+				if name == "" {
+					// a blank name cell names no column
+					continue
+				}
 				if foundCol, ok := sp.lookupTable[name]; ok && foundCol != col {
 					return xerrors.E0003(name, excel.Postion(nameRow, foundCol), excel.Postion(nameRow, col))
 				}
